@@ -116,7 +116,7 @@ E["C07"] = dict(
 E["C08"] = dict(
     level="exploration", ref="DESIGN.md §3 C08",
     text="Coarse and partial (exploration): the Lasso validation table is decided exactly (Err expected / never panic / never hang, under a watchdog); intercept and predict identities; near-optimality as necessary coordinate-probe conditions on the stated objective evaluated in the spec, and a two-near-minimisers-are-close relation for the target-shift and l1_ratio = 1 clauses; a one-regressor soft-threshold design model checks the predicates (Sound / Sharp / Close).",
-    note="Near-optimality 'to tol' itself is not proved: the coordinate probes are necessary conditions. Resolution 2^-12; n<=20, p<=6; max_iter other than the default is not exercised. Elastic net is judged on all target means; near-optimality is also checked on exact 2^+-10 / 2^-20 rescalings.",
+    note="Near-optimality 'to tol' itself is not proved: the coordinate probes are necessary conditions. Resolution 2^-12; n<=20, p<=6 (plus +-1 ladders to 257/513 rows); max_iter in {1, 2, 10^6, usize::MAX/2, usize::MAX} is exercised (tiny budgets only for 'returns or Err, never panics'). Elastic net is judged on all target means; near-optimality is also checked on exact 2^+-10 / 2^-20 rescalings.",
     technique=TECH_B)
 
 E["C09"] = dict(
@@ -147,7 +147,7 @@ def main():
             "evidence_file": "evidence/%s.json" % pid,
             "replay_cmd_template": "bin/vcheck %s --replay {path}" % pid,
             "engine": "vcheck",
-            "level_claimed": {"category": e["level"], "text": e["text"], "design_ref": e["ref"]},
+            "level_claimed": {"category": e["level"], "text": e["text"] + COMMON_TEXT, "design_ref": e["ref"]},
             "level_note": e["note"],
             "technique": e["technique"],
         })
@@ -175,6 +175,12 @@ def main():
 
 
 HOOK_COMMITS = ["a9ae94c"]
+# what every check gained after the fourth and fifth rounds of seeded regressions (DESIGN.md §10 last part, §12)
+COMMON_TEXT = (" The recorded executions additionally cover a size ladder (63..1025 rows and a few thousand, for training sets and for "
+               "single batch calls), deep-structure, multi-scale and adversarial-order families, special float values (-0.0, adjacent "
+               "floats, T::MAX, +-inf where valid), arbitrary float label sets carried as order-preserving codes, valid extreme "
+               "parameter values, and both the inherent and the api-trait entry points; each such class has a must-hit counter "
+               "(a run that does not produce it is vacuous and exits 2).")
 NA = {}
 
 if __name__ == "__main__":
